@@ -232,8 +232,8 @@ func locPositions(loc string) []int {
 }
 
 func gbTranslation(f gbFeature, ref string) string {
-	ps := locPositions(f.location)
-	rev := strings.Contains(f.location, "complement(") // the strand is what the location says, not the order of its positions (a gene spanning the origin is join(16..21,1..6), forward)
+	ps := locPositions(strings.NewReplacer("<", "", ">", "").Replace(f.location)) // partial-feature markers do not change the range
+	rev := strings.Contains(f.location, "complement(")                            // the strand is what the location says, not the order of its positions (a gene spanning the origin is join(16..21,1..6), forward)
 	if f.codonStart > 1 {
 		ps = ps[f.codonStart-1:]
 	}
